@@ -19,7 +19,7 @@ Inner == U(MaxDepth - 1)
 
 VARIABLE v
 Init == v \in Inner
-Next == v \in Inner /\ v' \in Expand(v, Inner, Width, RootSeqWidth, TopKinds, TopDCs)
+Next == Depth(v) < MaxDepth /\ v' \in Expand(v, Inner, Width, RootSeqWidth, TopKinds, TopDCs)
 Spec == Init /\ [][Next]_v
 
 \* values redun can hash at all (a top-level set must be sortable); the others are only stepping
